@@ -250,7 +250,7 @@ def replay(ctx, case):
     check_case(ctx, case)
 
 
-SUBS = [Sub("write_spec_read", run, replay, quick=3000, thorough=480000),
+SUBS = [Sub("write_spec_read", run, replay, quick=3000, thorough=300000),
         Sub("huge_ids", run_huge, replay, quick=400, thorough=64000),
         Sub("info_replaced", run_info_history, replay, quick=300,
             thorough=48000)]
